@@ -7,7 +7,9 @@ L2 standard spelling: every atom token the encoder can print is in the canonical
    isotope, 'H' + one digit, sign + canonical magnitude, element from the periodic table), so equivalent input
    spellings cannot yield different symbols through spelling alone
 L3 re-readable: every atom the decoder's writer can print is accepted by the SMILES atom reader
-Not decided: encoder(decoder(encoder(s))) == encoder(s) (traversal orders); capacity-related decoding errors.
+L4 what strict=True accepts is within capacity with explicit hydrogens counted (the comparator rule of C06/Q1), so an
+   accepted atom is not one the decoder refuses for its hydrogens
+Not decided: encoder(decoder(encoder(s))) == encoder(s) (traversal orders).
 """
 import ast
 import string
@@ -149,6 +151,10 @@ def run(ctx, rep):
     # ---- L3 decoder-side printer ⊆ encoder-side reader
     check_rereadable(ctx, rep, dec)
     rep.floor("L1", 6)
+    # L4: "decoding it under K never raises" presupposes that strict=True refuses atoms the decoder will refuse
+    # (capacity counts explicit hydrogens): the acceptance comparator of C06/Q1, shared
+    from rules.C06 import check_acceptance
+    check_acceptance(ctx, rep, "L4")
     rep.analysed.update({"abstract_reader_atoms": enc["inner"]["n_atoms"], "decoder_atom_dfa_states": len(dec["dfa"].trans),
                          "encoder_atom_dfa_states": len(enc["dfa"].trans)})
 
